@@ -17,8 +17,8 @@ RULE = (
     "incoming ARP}) on a subject node 's' with an always-on peer 'p' (and a second peer 'q' behind network nodes). "
     "Exhaustive part: every sequence of the 8-symbol alphabet to depth 3 (quick) / 4 (thorough) that contains at least one "
     "shutdown or reset (sequences without one never leave ON), for every node type and every duration pair in {0,1}^2 "
-    "(quick) / {0,1,2}^2 (thorough); random part: Hypothesis sequences to depth 25 with durations in {0..4}^2 and the "
-    "initial state ON or OFF. After every op the reference power FSM is compared with Node.operating_state and, while the "
+    "(quick) / {0,1,2}^2 (thorough); random part: Hypothesis sequences to depth 25 (blocks 'power request + 0..8 ticks / foreign operations') with durations "
+    "in {0..4}^2 and the initial state ON or OFF. After every op the reference power FSM is compared with Node.operating_state and, while the "
     "node is not ON, the gating battery runs (interfaces, monitors on its interfaces, its software, ~12 well-formed "
     "requests, ping / ARP / directly delivered frames). Non-trivial = the sequence itself contains a service/file request "
     "or incoming ping/ARP issued while the node is transitional or OFF; distinct by hash of the whole case."
@@ -722,10 +722,13 @@ def run_case(case: Dict) -> CaseResult:
 ALPHABET = [["shutdown"], ["startup"], ["reset"], ["tick"], ["svc", "scan"], ["file", "create", "x.txt"], ["ping"], ["arp"]]
 
 
-def op_strategy():
+POWER = [["shutdown"], ["startup"], ["reset"]]
+
+
+def noise_strategy():
+    """Ticks (about half) and foreign operations that may fall into any power state."""
     return st.one_of(
-        st.sampled_from([["shutdown"], ["startup"], ["reset"]]),
-        st.sampled_from([["shutdown"], ["startup"], ["reset"]]),
+        st.just(["tick"]),
         st.just(["tick"]),
         st.just(["tick"]),
         st.just(["tick"]),
@@ -736,6 +739,16 @@ def op_strategy():
     )
 
 
+def ops_strategy(max_len: int):
+    """Blocks 'power request, then 0..8 ticks/foreign ops' so that whole power cycles with durations up to 4 are common."""
+    block = st.tuples(st.sampled_from(POWER), st.lists(noise_strategy(), min_size=0, max_size=8)).map(
+        lambda t: [list(t[0])] + [list(o) for o in t[1]]
+    )
+    return st.tuples(st.lists(noise_strategy(), min_size=0, max_size=2), st.lists(block, min_size=1, max_size=6)).map(
+        lambda t: ([list(o) for o in t[0]] + [o for b in t[1] for o in b])[:max_len]
+    )
+
+
 def case_strategy(max_len: int, comp: List[str]):
     dur = st.sampled_from([0, 0, 1, 1, 2, 3, 4])
     d = {
@@ -743,7 +756,7 @@ def case_strategy(max_len: int, comp: List[str]):
         "du": dur,
         "dd": dur,
         "init": st.sampled_from([ON, ON, ON, OFF]),
-        "ops": st.lists(op_strategy(), min_size=1, max_size=max_len),
+        "ops": ops_strategy(max_len),
     }
     if comp:
         d["comp"] = st.just(list(comp))
